@@ -1128,3 +1128,100 @@ Proof.
   pose proof (idle_no_waits c s R Z) as W.
   unfold rsc_emb, embc, fresh_of, pre_fresh, started. st_ext; rewrite ?Cl, ?W, ?app_nil_r; try reflexivity; try lia.
 Qed.
+
+Lemma shaped_ren_msg dk m : shaped_msg m = true -> shaped_msg (ren_msg dk m) = true.
+Proof.
+  unfold shaped_msg, ren_msg. rewrite reid_req. destruct (is_req_or_notif m) eqn:R; [reflexivity|]. cbn [orb].
+  destruct (reid_fields (ren dk) m) as (Fm & _ & _ & Fh). unfold reply_shaped. rewrite Fm, Fh.
+  destruct (is_nil (j_method m) && has_reply_fields m); [reflexivity|]. cbn [orb]. intros H.
+  rewrite (reid_same (ren dk) m); [exact H|]. apply ren_not_pos. apply negb_true_iff. exact H.
+Qed.
+
+Lemma shaped_ren_feed dk f : shaped_feed f = true -> shaped_feed (ren_feed dk f) = true.
+Proof.
+  assert (L : forall ms, forallb shaped_msg ms = true -> forallb shaped_msg (map (ren_msg dk) ms) = true).
+  { induction ms as [|m ms IH]; cbn [forallb map]; auto. intros H. apply andb_true_iff in H as [H1 H2].
+    rewrite (shaped_ren_msg dk m H1), (IH H2). reflexivity. }
+  unfold ren_feed, ren_msg in *. destruct f as [[|b ms]|[|b ms]|c]; cbn; auto.
+Qed.
+
+Lemma lab_ok'_relabel ot ou dk nc oops l : lab_ok oops l = true -> lab_ok' dk oops (rs_labelc ot ou dk nc l) = true.
+Proof.
+  unfold lab_ok'. destruct l; cbn [rs_labelc sh_label lab_ok]; intros H; rewrite ?H; auto.
+  rewrite (shaped_ren_feed dk f H), no_old_ren_feed. reflexivity.
+Qed.
+
+(* The restart simulation for a server with AllowPush, whatever Callbacks its earlier incarnations registered, as long
+   as none of them is still registered (calls s = []: every old callback has returned to its caller). *)
+Theorem restart_simulation_cb c s : reach c s -> cf_push c = true -> wg s = 0 -> running s = false -> calls s = [] ->
+  let dk := call_id s - 1 in
+  let nc := length (cbs s) in
+  let oops := map cb_op (cbs s) in
+  step s LStart = Some (started s, []) /\ reach c (fresh_of c s) /\ pinv (fresh_of c s) /\ old_ok dk (cbs s) /\
+  started s = rsc_emb s (cbs s) (fresh_of c s) /\
+  (* one window, every label of the fresh server *)
+  (forall ocb x l, old_ok dk ocb -> pinv x -> lab_ok (map cb_op ocb) l = true ->
+     step (rsc_emb s ocb x) (rsc_label s (length ocb) l) =
+     match step x l with Some (x', os) => Some (rsc_emb s ocb x', map (ren_obs dk) os) | None => None end) /\
+  (* the labels of the history: disabled (tasks, units), silent or disabled (watchers of old callback records) *)
+  (forall ocb x l', old_label (tasks s) (units s) l' = true -> step (rsc_emb s ocb x) l' = None) /\
+  (forall ocb x i c0, old_ok dk ocb -> nth_error ocb i = Some c0 -> settle1 x = None ->
+     step (rsc_emb s ocb x) (LRelCbWatch i) =
+     match crash x, cb_watch c0 with None, WParked => Some (rsc_emb s (mark_done i ocb) x, []) | _, _ => None end) /\
+  (* every other label is a relabelled one *)
+  (forall l', old_label (tasks s) (units s) l' = false -> old_watch nc l' = false -> lab_ok' dk oops l' = true ->
+     exists l, l' = rsc_label s nc l /\ lab_ok oops l = true) /\
+  (* whole runs, both directions *)
+  (forall tr x oss, forallb (lab_ok oops) tr = true -> run (fresh_of c s) tr = Some (x, oss) ->
+     run (started s) (map (rsc_label s nc) tr) = Some (rsc_emb s (cbs s) x, map (map (ren_obs dk)) oss) /\
+     forallb (lab_ok' dk oops) (map (rsc_label s nc) tr) = true) /\
+  (forall tr' sr oss, forallb (lab_ok' dk oops) tr' = true -> run (started s) tr' = Some (sr, oss) ->
+     exists ocb' x ossf,
+       run (fresh_of c s) (strip (tasks s) (units s) dk nc tr') = Some (x, ossf) /\
+       forallb (lab_ok oops) (strip (tasks s) (units s) dk nc tr') = true /\
+       sr = rsc_emb s ocb' x /\ oss = weave dk nc tr' ossf /\ concat oss = map (ren_obs dk) (concat ossf) /\
+       old_ok dk ocb' /\ length ocb' = nc /\ map cb_op ocb' = oops /\ map cb_id ocb' = map cb_id (cbs s)).
+Proof.
+  intros R Cp Z Rn Cl. cbv zeta. destruct (restart_old_finished c s R Z) as [Hot Hou].
+  pose proof (restart_is_embc c s R Z Rn Cl) as E.
+  pose proof (tight_old_ok s (reachf_tight c s (reach_reachf _ _ R))) as Ho.
+  pose proof (fresh_of_reachable c s R) as Rf.
+  assert (Pf : pinv (fresh_of c s)).
+  { unfold pinv, fed_ok, rd_shaped, fresh_of, pre_fresh, started. cbn. repeat split; auto; try (intros f []). }
+  assert (Sf : crash (fresh_of c s) = None -> settle1 (fresh_of c s) = None) by (apply (reach_settled c); exact Rf).
+  split; [apply (restart_fresh c s R Z Rn)|]. split; [exact Rf|]. split; [exact Pf|]. split; [exact Ho|].
+  split; [exact E|]. split; [|split; [|split; [|split; [|split]]]].
+  - intros ocb x l Hk Px Lk. unfold rsc_emb, rsc_label.
+    rewrite (embc_step _ _ _ _ _ Hot Hou ocb x l Hk Px Lk). destruct (step x l) as [[x' os]|]; reflexivity.
+  - intros ocb x l' O. apply (embc_old_label_disabled _ _ _ _ _ Hot Hou). exact O.
+  - intros ocb x i c0 Hk N St. apply (embc_old_watch _ _ _ _ _ Hot Hou); auto.
+  - intros l' O W L. exists (unlabelc (tasks s) (units s) (call_id s - 1) (length (cbs s)) l').
+    destruct (relabel (tasks s) (units s) (call_id s - 1) _ _ l' O W L) as [A B]. split; [symmetry; exact A|exact B].
+  - intros tr x oss L H. split.
+    + rewrite E. apply (embc_run_fwd _ _ _ _ _ Hot Hou (cbs s) Ho); auto.
+    + clear H. induction tr as [|l r IH]; cbn [map forallb] in *; auto. apply andb_true_iff in L as [L1 L2].
+      unfold rsc_label at 1. rewrite (lab_ok'_relabel (tasks s) (units s) (call_id s - 1) (length (cbs s)) (map cb_op (cbs s)) l L1). apply IH. exact L2.
+  - intros tr' sr oss L H. rewrite E in H.
+    destruct (embc_run_bwd _ _ _ _ _ Hot Hou tr' (cbs s) _ sr oss Ho Pf Sf L H)
+      as (ocb' & x' & ossf & R1 & R2 & R3 & R4 & R5 & R6 & R7 & R8).
+    exists ocb', x', ossf. repeat split; auto. rewrite R3. apply (concat_weave (tasks s) (units s)).
+    apply run_length in R1. exact R1.
+Qed.
+
+(* hence every property of the observations of a fresh server (fed shaped records, not reusing the operation numbers
+   of old records for LCbCtxEnd) that is invariant under the renaming of callback ids holds of the restarted server
+   (fed shaped records that bear no id of an old callback), and conversely *)
+Corollary restart_trace_properties_cb c s (P : list obs -> Prop) : reach c s -> cf_push c = true -> wg s = 0 ->
+  running s = false -> calls s = [] ->
+  (forall os, P os <-> P (map (ren_obs (call_id s - 1)) os)) ->
+  ((forall tr x oss, forallb (lab_ok (map cb_op (cbs s))) tr = true -> run (fresh_of c s) tr = Some (x, oss) ->
+      P (concat oss)) <->
+   (forall tr' sr oss, forallb (lab_ok' (call_id s - 1) (map cb_op (cbs s))) tr' = true ->
+      run (started s) tr' = Some (sr, oss) -> P (concat oss))).
+Proof.
+  intros R Cp Z Rn Cl Inv.
+  destruct (restart_simulation_cb c s R Cp Z Rn Cl) as (_ & _ & _ & _ & _ & _ & _ & _ & _ & Fw & Bw). split.
+  - intros H tr' sr oss L Hr. destruct (Bw _ _ _ L Hr) as (ocb' & x & ossf & R1 & R2 & _ & _ & R5 & _).
+    rewrite R5. apply (proj1 (Inv (concat ossf))). eapply H; eauto.
+  - intros H tr x oss L Hr. destruct (Fw _ _ _ L Hr) as [F1 F2]. apply (proj2 (Inv (concat oss))). rewrite concat_map. eapply H; eauto.
+Qed.
